@@ -22,7 +22,8 @@ RULE = ("sessions over (host active / equipment passive and the reverse) x (enab
         "simultaneous) x initial control state x link seeds (segmentation, latency, accept/connect order), each with a random "
         "sequence (<= 25, thorough <= 100) of host calls {request_svs, request_sv, list_svs, request_ecs, list_ecs, set_ec, "
         "list_alarms, list_enabled_alarms, enable/disable_alarm, go_online, go_offline, send_remote_command, are_you_there} "
-        "and equipment actions {trigger (ids as numbers and as CollectionEventId members, one or two per call), set/clear alarm, control switches, value updates} and 0-3 disable/enable cycles of "
+        "(incl. clear_collection_events followed by a new subscription; 15% of the sessions with the first answers of the passive side "
+        "later than the active side's T6) and equipment actions {trigger (ids as numbers and as CollectionEventId members, one or two per call), set/clear alarm, control switches, value updates} and 0-3 disable/enable cycles of "
         "either side; distinct by (configuration, link seed, call sequence); non-trivial when the API phase ran at least 5 calls")
 ASSUMPTIONS = ["'within a bounded time' is virtual time: at most 10 establish-communications timer expiries per convergence, "
                "with a 20 s wall-clock watchdog whose firing is inconclusive unless every thread is parked",
@@ -55,13 +56,19 @@ class Session:
         self.cfg = {"host_active": host_active, "enable_order": order, "initial_control_state": initial_control, "link_seed": link_seed}
         A, P = secsgem.hsms.HsmsConnectMode.ACTIVE, secsgem.hsms.HsmsConnectMode.PASSIVE
         port = 7000 + ctx.rng.randrange(50000)
-        common = dict(address="127.0.0.1", port=port, t3=5.0, t6=3.0, establish_communication_timeout=10)
+        # "any message timing": in some sessions the passive side's first answers take longer than the active side's T6
+        self.slow_select = ctx.rng.random() < 0.15
+        common = dict(address="127.0.0.1", port=port, t3=5.0, t6=0.4 if self.slow_select else 3.0, establish_communication_timeout=10)
         self.hs = PipeHsmsSettings(connect_mode=A if host_active else P, device_type=secsgem.common.DeviceType.HOST, **common)
         self.es = PipeHsmsSettings(connect_mode=P if host_active else A, device_type=secsgem.common.DeviceType.EQUIPMENT, **common)
         self.host = secsgem.gem.GemHostHandler(self.hs)
         self.eq = secsgem.gem.GemEquipmentHandler(self.es, initial_control_state=initial_control)
         hp, ep = self.hs.create_connection(), self.es.create_connection()
         self.link = Link(hp if host_active else ep, ep if host_active else hp, seed=link_seed)
+        if self.slow_select:
+            self.link.slow_first_response = 0.9
+            ctx.count("sessions.with_select_response_later_than_T6")
+        self.cfg["select_response_later_than_T6"] = self.slow_select
         self.hp, self.ep = hp, ep
         # equipment tables
         self.sv = StatusVariable(10, "sv_ten", "mm", V.U4, use_callback=False)
@@ -307,6 +314,21 @@ class Session:
             self.host_call("send_remote_command(START)", lambda: host.send_remote_command("START", []), {"HCACK": 4, "PARAMS": []})
         elif r < 0.85:
             self.host_call("are_you_there()", lambda: host.are_you_there(), None, compare=lambda g: g is not None)
+        elif r < 0.87 and self.subscribed:
+            # the host removes all reports and links, then subscribes again: the events must flow as before
+            self.hist.append("clear_collection_events() + subscribe again")
+            _, err = self.call("clear_collection_events", lambda: host.clear_collection_events())
+            if err is not None and not self.bad:
+                self.violation("clear_collection_events-fails", error=repr(err)[:200])
+                return
+            self.ctx.count("oracle.clear_and_subscribe_again")
+            if not self.bad and (eq.registered_reports or eq.registered_collection_events):
+                self.violation("host-view-differs-from-equipment:clear_collection_events",
+                               reports_left=sorted(map(str, eq.registered_reports)), links_left=sorted(map(str, eq.registered_collection_events)))
+                return
+            self.subscribed = False
+            if not self.bad:
+                self.subscribe()
         elif r < 0.94 and self.subscribed:
             from secsgem.gem import CollectionEventId
 
